@@ -65,6 +65,10 @@ PIPE_ERRORS = {"EOFError", "BrokenPipeError", "ConnectionResetError", "OSError"}
 MISUSE = {"AlreadyPendingCallError", "NoAsyncCallError", "ClosedEnvironmentError"}
 CONCURRENCY = 3          # trace children per pool worker (sleepers and deadlocks cost wall time, not CPU)
 T_OUT, T_SLEEP, T_WATCH, T_CLOSE, T_GENEROUS = 0.15, 1.5, 6.0, 5.0, 5.0
+# staggered sleepers: worker j answers after 0.7 s, worker j' > j after 1.6 s, the wait gets ONE deadline of 1.0 s. The timeout must be
+# reported (worker j' is 0.6 s late); a per-pipe restart of the timeout (0.7 + 1.0 > 1.6) would swallow it. Load can only delay
+# the workers further, i.e. towards the expected TimeoutError: the expectation is safe on a busy machine.
+T_STAG, STAG_SLEEPS = 1.0, (0.7, 1.6)
 T_LINGER = 0.1           # every worker needs 0.1 s to go away (env.close() / SIGTERM): a close() that does not join is caught red-handed
 
 
@@ -77,7 +81,7 @@ def bounds(tier):
         "pair": "two faults in two different workers, all ordered pairs of firing points (same point included) x kind pairs; pairs whose second point follows a SIGKILL are not enumerated",
         "every trace ends with": "close()",
         "gate order": "reverse; identity as well for step faults (and for every trace with a step where both gate orders = true)",
-        "timeout_s": T_OUT, "sleeper_s": T_SLEEP, "watchdog_s_per_call": T_WATCH, "close_bound_s": T_CLOSE,
+        "timeout_s": T_OUT, "sleeper_s": T_SLEEP, "staggered_sleepers(timeout_s, sleeps_s)": [T_STAG, list(STAG_SLEEPS)], "watchdog_s_per_call": T_WATCH, "close_bound_s": T_CLOSE,
     }
 
 
@@ -218,12 +222,12 @@ def model_walk(N, seq, plan, sleep_mode, healthy_to):
         sleeper_active = any(f["kind"] == "sleep" for f in m.active)
         if typ == "wait":
             if m.st == cmd and not m.closed and sleeper_active:
-                to = T_OUT if sleep_mode == "timeout" else 0.0 if sleep_mode == "timeout0" else None
+                to = T_OUT if sleep_mode == "timeout" else 0.0 if sleep_mode == "timeout0" else T_STAG if sleep_mode == "stagger" else None
             else:
                 to = healthy_to
         elif name == "close":
             if not m.closed and sleeper_active and m.st in ("reset", "step", "call"):
-                to = T_OUT if sleep_mode == "timeout" else 0.0 if sleep_mode == "timeout0" else None
+                to = T_OUT if sleep_mode == "timeout" else 0.0 if sleep_mode == "timeout0" else T_STAG if sleep_mode == "stagger" else None
         exp, cls = m.expect(name, to)
         if cls == "legal" and typ in ("async", "sync") and not m.closed and m.st == "default":
             nxt = (list(seq) + ["close"])[idx + 1] if idx + 1 <= len(seq) else "end"
@@ -298,6 +302,13 @@ def gen_traces(part):
                         for sm in (("timeout", "timeout0", "wait") if kind == "sleep" else ("wait",)):
                             for order in orders:
                                 add(seq, [{"env": j, "cmd": cmd, "occ": occ, "kind": kind}], sm, None, order)
+        elif part["kind"] == "stagger":
+            for (cmd, occ, how, nxt) in points:
+                if how != "pending":
+                    continue
+                for j1, j2 in itertools.combinations(range(N), 2):
+                    add(seq, [{"env": j1, "cmd": cmd, "occ": occ, "kind": "sleep", "sleep": STAG_SLEEPS[0]},
+                              {"env": j2, "cmd": cmd, "occ": occ, "kind": "sleep", "sleep": STAG_SLEEPS[1]}], "stagger", None, "rev")
         elif part["kind"] == "pair":
             for (p1, p2) in itertools.combinations_with_replacement(range(len(points)), 2):
                 for j1, j2 in itertools.permutations(range(N), 2):
@@ -322,6 +333,7 @@ PLAN = {
         ("single", 2, 2, FAULT_KINDS, [None], False, 1),
         ("single", 3, 2, NOSLEEP, [None], False, 1),
         ("single", 3, 1, ["sleep"], [None], False, 1),
+        ("stagger", 3, 2, ["sleep"], [None], False, 1),
     ],
     "thorough": [
         ("misuse", 2, 4, None, [None], False, 2),
@@ -332,6 +344,7 @@ PLAN = {
         ("single", 3, 2, FAULT_KINDS, [None], True, 1),
         ("pair", 2, 2, FAULT_KINDS, [None], False, 2),
         ("pair", 3, 1, FAULT_KINDS, [None], False, 1),
+        ("stagger", 3, 2, ["sleep"], [None], False, 1),
     ],
 }
 
